@@ -359,9 +359,11 @@ func (w *World) TruncateChecked(n *Node, d *Driver, race bool) {
 	// clients keep asking for balances while the truncation runs (no writer is active then): every answer, whether it
 	// was computed before, during or after the cut, must be the answer given before the truncation
 	type badAns struct {
-		addr string
-		got  balAns
+		addr         string
+		got          balAns
+		phase0, phase1 int32 // truncation phase (0 not started, 1 running, 2 returned) when the query was sent / answered
 	}
+	var phase atomic.Int32
 	var readers sync.WaitGroup
 	var stopReaders atomic.Bool
 	var readerAnswers, readersReady atomic.Int64
@@ -383,7 +385,9 @@ func (w *World) TruncateChecked(n *Node, d *Driver, race bool) {
 				defer readers.Done()
 				for i := g; !stopReaders.Load() && i < 1<<20; i++ {
 					a := watch[i%len(watch)]
+					p0 := phase.Load()
 					b, err := n.Book.CalculateBalance(w.Ctx, a)
+					p1 := phase.Load()
 					got := balAns{err == nil, MelStr(b.Spice)}
 					readerAnswers.Add(1)
 					if i == g {
@@ -392,7 +396,7 @@ func (w *World) TruncateChecked(n *Node, d *Driver, race bool) {
 					if got != ansBefore[a] {
 						badMu.Lock()
 						if len(bad) < 8 {
-							bad = append(bad, badAns{a, got})
+							bad = append(bad, badAns{a, got, p0, p1})
 						}
 						badMu.Unlock()
 					}
@@ -403,7 +407,9 @@ func (w *World) TruncateChecked(n *Node, d *Driver, race bool) {
 			time.Sleep(time.Millisecond)
 		}
 	}
+	phase.Store(1)
 	err := n.Book.VerifTruncate(w.Ctx)
+	phase.Store(2)
 	w.LastTruncateErr = err
 	wg.Wait()
 	stopReaders.Store(true)
@@ -546,8 +552,15 @@ func (w *World) TruncateChecked(n *Node, d *Driver, race bool) {
 		if n.BackgroundMayAct(before) || n.BackgroundMayAct(after) {
 			break
 		}
-		w.Violate("C07", "reported-balance-changed/during-truncation", fmt.Sprintf("node %s: CalculateBalance(%s) answered %+v before the truncation and %+v to a client that asked while the truncation was running", n.Name, w.NameOf(ba.addr), ansBefore[ba.addr], ba.got))
-		w.Violate("C06", "balance-answer-differs/during-truncation", fmt.Sprintf("node %s: a client that asked for the balance of %s while a truncation was running was told %+v; checkpointed funds + received - sent over the tip is %+v", n.Name, w.NameOf(ba.addr), ba.got, ansBefore[ba.addr]))
+		if n.Tainted[ba.addr] {
+			// this very truncation checkpointed a negative net flow for the wallet (cross-branch overdraw, the C02
+			// known finding; checkStoredFunds above has just marked it): its balance is not judged, as below
+			continue
+		}
+		nb, nerr := n.Book.CalculateBalance(w.Ctx, ba.addr)
+		when := fmt.Sprintf("query sent in truncation phase %d, answered in phase %d (0 = not started, 1 = running, 2 = returned); asked again now: %+v", ba.phase0, ba.phase1, balAns{nerr == nil, MelStr(nb.Spice)})
+		w.Violate("C07", "reported-balance-changed/during-truncation", fmt.Sprintf("node %s: CalculateBalance(%s) answered %+v before the truncation and %+v to a client that asked while the truncation was running; %s", n.Name, w.NameOf(ba.addr), ansBefore[ba.addr], ba.got, when))
+		w.Violate("C06", "balance-answer-differs/during-truncation", fmt.Sprintf("node %s: a client that asked for the balance of %s while a truncation was running was told %+v; checkpointed funds + received - sent over the tip is %+v; %s", n.Name, w.NameOf(ba.addr), ba.got, ansBefore[ba.addr], when))
 	}
 	if single && !race {
 		for _, a := range addrs {
